@@ -362,6 +362,7 @@ impl World {
         let rt = &mut self.rt[a as usize];
         rt.up_stored.clear();
         rt.adopted_prev = std::mem::take(&mut rt.adopted_cur);
+        rt.adopted_weak_prev = std::mem::take(&mut rt.adopted_weak_cur);
         rt.expect_marking = false;
         rt.neg_adjust = false;
         rt.pacing_changed = false;
@@ -678,6 +679,18 @@ impl World {
         };
         let before = self.frame(acting);
         self.exec_event_inner(ev, g);
+        if !self.ok() && !before.is_empty() {
+            // some per-arena oracle fired; if the event also disturbed another arena, that is C20's
+            let after = self.frame(acting);
+            let disturbed = before.iter().any(|x| after.iter().find(|y| y.0 == x.0).is_some_and(|y| (x.1, x.2, x.3, x.4, x.6) != (y.1, y.2, y.3, y.4, y.6)));
+            if disturbed {
+                if let Some(v) = self.viol.as_mut() {
+                    if !v.oracle.starts_with("C20") && !v.aliases.iter().any(|a| a == "C20.frame") {
+                        v.aliases.push("C20.frame".to_string());
+                    }
+                }
+            }
+        }
         if self.ok() && !before.is_empty() {
             let after = self.frame(acting);
             for x in &before {
@@ -714,7 +727,7 @@ impl World {
             Event::SetPacing { a, p } => self.ev_set_pacing(*a, *p),
             Event::AdjustDebt { a, x } => self.ev_adjust_debt(*a, *x),
             Event::ArmTraceFault { at, repeat } => tok::arm_trace_fault(*at, *repeat),
-            Event::NewArena { a, root_set, ops, p, fail } => self.ev_new_arena(*a, *root_set, ops, *p, *fail, g),
+            Event::NewArena { a, root_set, ops, p, fail, bare } => self.ev_new_arena(*a, *root_set, ops, *p, *fail, *bare, g),
             Event::DropArena { a } => self.ev_drop_arena(*a),
         }
         // isolation frame (C20) and per-event metrics oracles
